@@ -174,6 +174,23 @@ pub fn run_group(a: &Args, out: &mut Out) {
             }
         }
     }
+    if a.focus == "eq" {
+        // sweep: every sparse-Montgomery pool value as z (G1), as the real or the imaginary part of z (G2), through normalize
+        let poolq = load_pool(&a.pool, "Fq");
+        for (i, l) in sparse_mont(&poolq.vals).into_iter().enumerate() {
+            // G1: every value (the Fq inversion sees z itself); G2: half of them (its inversion sees the norm of z)
+            let mut n = G1::one() * rand_fr(&mut rng);
+            n.normalize();
+            let p = g1_scale(n, l);
+            out.call("g.normalize", json!({"G": "G1", "a": p.jac()}), || { let mut q = p; q.normalize(); outs! {"out" => q.jac(), "isz" => Value::Bool(q.is_zero())} });
+            if a.tier == "thorough" || (i as u64 + a.seed) % 2 == 0 {
+                let mut n = G2::one() * rand_fr(&mut rng);
+                n.normalize();
+                let p = g2_scale(n, if i % 4 < 2 { Fq2::new(l, Fq::zero()) } else { Fq2::new(Fq::zero(), l) });
+                out.call("g.normalize", json!({"G": "G2", "a": p.jac()}), || { let mut q = p; q.normalize(); outs! {"out" => q.jac(), "isz" => Value::Bool(q.is_zero())} });
+            }
+        }
+    }
     let (mut k1, mut k2) = (0u64, 0u64);
     // share of G2 events is lower: the specification's Fq2 arithmetic is slower
     while !out.full() {
@@ -300,6 +317,56 @@ pub fn run_encode(a: &Args, out: &mut Out) {
                 encode_point::<G1>(&mut rng, out, p);
                 found += 1;
             }
+        }
+    }
+    // G1 points whose x is a CONVERSION-quotient value (TLC family cvt: the Montgomery conversion of x, into or out of Montgomery form,
+    // has prescribed quotient digits, zeros at every position).  The field element is built as (x - 1) + 1, NOT from the bytes of x, so
+    // that its value is x even if the conversion of exactly these bytes is what misbehaves; the encoder converts it out, the decoder
+    // converts the bytes back in.
+    {
+        let poolq = load_pool(&a.pool, "Fq");
+        let fmts = ["raw", "unc", "cmp"];
+        let mut n = 0usize;
+        let mut v33 = [0u8; 33];
+        v33[0] = 1;
+        let rr = Fq::from_slice(&v33).unwrap();
+        let zero_limb = |vb: &Vec<u8>| -> bool { (Fq::from_slice(vb).unwrap() * rr).to_slice().chunks(8).any(|c| c.iter().all(|x| *x == 0)) };
+        // ... and x values with a zero limb in their Montgomery representation (squared by AffineG1::new when the encoding is decoded)
+        let xs: Vec<&Vec<u8>> = poolq.cvt.iter().chain(poolq.vals.iter().filter(|v| zero_limb(v))).collect();
+        for (i, v) in xs.into_iter().enumerate() {
+            if a.tier != "thorough" && (i as u64 + a.seed) % 3 != 0 { continue; }
+            let mut w = v.clone();
+            if w.iter().all(|x| *x == 0) { continue; }
+            for k in (0..32).rev() { if w[k] == 0 { w[k] = 0xff; } else { w[k] -= 1; break; } }      // bytes of x - 1
+            let x = Fq::from_slice(&w).unwrap() + Fq::one();
+            if let Some(y) = (x * x * x + G1::b()).sqrt() {
+                n += 1;
+                let y = if n % 2 == 0 { y } else { -y };
+                let r = if n % 5 == 0 { g1_rep(&mut rng, G1::new(x, y, Fq::one()), "S") } else { G1::new(x, y, Fq::one()) };
+                let fmt = fmts[n % 3];
+                out.call("g.encode", json!({"G": "G1", "a": r.jac(), "fmt": fmt, "k": b(&[0u8; 32]), "negated": false, "anchor": false}), || {
+                    let e = r.enc(fmt);
+                    let d = <G1 as Grp>::dec(&e, fmt);
+                    outs! {"out" => b(&e), "dec" => opt_jac(d), "deceq" => Value::Bool(d.map(|x| x == r).unwrap_or(false))}
+                });
+            }
+        }
+        // representatives whose 1/z (squared by to_affine) has a zero limb in its Montgomery representation: z = 1/v
+        let mut m = 0usize;
+        for (i, vb) in poolq.vals.iter().filter(|v| zero_limb(v)).enumerate() {
+            if (i as u64 + a.seed) % (if a.tier == "thorough" { 1 } else { 4 }) != 0 { continue; }
+            let v = Fq::from_slice(vb).unwrap();
+            if v.is_zero() { continue; }
+            m += 1;
+            let mut pn = G1::one() * rand_fr(&mut rng);
+            pn.normalize();
+            let r = g1_scale(pn, v.inverse().unwrap());
+            let fmt = fmts[m % 3];
+            out.call("g.encode", json!({"G": "G1", "a": r.jac(), "fmt": fmt, "k": b(&[0u8; 32]), "negated": false, "anchor": false}), || {
+                let e = r.enc(fmt);
+                let d = <G1 as Grp>::dec(&e, fmt);
+                outs! {"out" => b(&e), "dec" => opt_jac(d), "deceq" => Value::Bool(d.map(|x| x == r).unwrap_or(false))}
+            });
         }
     }
     // ... and the first multiples of the generators having a coordinate limb whose top byte is zero
